@@ -559,6 +559,7 @@ def register(E):
         s = as_str(st, a[0])
         if ty in INT_TYPES and ty != 'char':
             w, sg = INT_TYPES[ty]
+            st.note(('parse-int', s))
             return parse_uint(E, s, w, sg)
         if ty.endswith('Ipv6Addr') or ty.endswith('Ipv4Addr'):
             r = ip_ok(E, s, ty.endswith('Ipv6Addr'))
